@@ -5,13 +5,14 @@
 // reasoned about at `ℝ` / `FVal` by lean/Gv/Props/C07.lean.
 //
 // Supported Go subset (anything else: exit 2, loudly, never skipped):
-//   float64 locals (`var`, `:=`, `=`, `+= -= *= /=`, simultaneous assignment), `if/else` on
-//   comparisons combined with `! && ||`, early `return`, named results, `math.Log/Exp/Pow/Sqrt/Abs`,
-//   `math.Inf(±1)`, `math.NaN()`, `math.IsNaN`, reads of receiver fields (become parameters),
-//   `m.pi[<literal>]`, `for i := range m.pi` (unrolled: the length is read from `probaNt`),
-//   one call of a pair counter whose results become parameters (the call itself is emitted as
-//   data so that the hand-written model dispatches on what the source says), and a `switch` on a
-//   receiver field whose clauses are exactly such calls.
+//
+//	float64 locals (`var`, `:=`, `=`, `+= -= *= /=`, simultaneous assignment), `if/else` on
+//	comparisons combined with `! && ||`, early `return`, named results, `math.Log/Exp/Pow/Sqrt/Abs`,
+//	`math.Inf(±1)`, `math.NaN()`, `math.IsNaN`, reads of receiver fields (become parameters),
+//	`m.pi[<literal>]`, `for i := range m.pi` (unrolled: the length is read from `probaNt`),
+//	one call of a pair counter whose results become parameters (the call itself is emitted as
+//	data so that the hand-written model dispatches on what the source says), and a `switch` on a
+//	receiver field whose clauses are exactly such calls.
 //
 // Decimal literals are emitted as exact ratios of naturals (`.75` ↦ `3/4`): correctly rounded
 // division keeps `Float` evaluation bit-identical, and `ring` mis-normalises `OfScientific`
@@ -627,9 +628,9 @@ var ndInitStructural = map[string]bool{
 	"m.gamma = gamma": true,
 	"m.alpha = alpha": true,
 	"m.numSites, m.selectedSites = selectedSites(al, weights, m.removegaps)": true,
-	"m.sequenceCodes, err = alignmentToCodes(al)":                             true,
-	"if m.sequenceCodes, err = alignmentToCodes(al); err != nil { return }":   true,
-	"m.pi, err = probaNt(m.sequenceCodes, m.selectedSites, weights)":          true,
+	"m.sequenceCodes, err = alignmentToCodes(al)":                            true,
+	"if m.sequenceCodes, err = alignmentToCodes(al); err != nil { return }":  true,
+	"m.pi, err = probaNt(m.sequenceCodes, m.selectedSites, weights)":         true,
 	"return": true,
 }
 
